@@ -283,14 +283,17 @@ mod enigma_line {
 }
 
 fn write_class(class_key: &ObjClassNameSlice, class: &ClassNowodeMapping<2>, w: &mut impl Write, indent: usize) -> Result<()> {
+	// a class written at the top level of a file has no parent line to take its outer class name from,
+	// even if it is an inner class (one whose outer class isn't in the mappings), so it keeps its full names
+	let is_nested = indent != 0;
 	let indent = "\t".repeat(indent);
 
 	let [_, dst] = class.info.names.names();
 	// get to only the part after $ if it exists
-	let src = class_key.get_inner_class_name().unwrap_or(class_key);
+	let src = class_key.get_inner_class_name().filter(|_| is_nested).unwrap_or(class_key);
 	// the dst name also stores only the inner class name
 	let dst = dst.as_ref()
-		.map(|dst| dst.get_inner_class_name().unwrap_or(dst));
+		.map(|dst| dst.get_inner_class_name().filter(|_| is_nested).unwrap_or(dst));
 
 	write!(w, "{indent}CLASS {src}")?;
 	if let Some(dst) = dst {
